@@ -10,6 +10,7 @@ use std::io::Write;
 
 mod d_entry;
 mod d_pipe;
+mod d_scan;
 mod d_sel;
 
 pub struct Out {
@@ -20,6 +21,8 @@ pub struct Out {
   pub stats: BTreeMap<String, u64>,
   pub n: u64,
   pub nsearch: u64,
+  pub evals: u64,
+  pub nontrivial: std::collections::HashSet<u64>,
   pub dir: String,
   pub sub: String,
 }
@@ -27,7 +30,7 @@ impl Out {
   pub fn new(dir: &str, sub: &str) -> Out {
     std::fs::create_dir_all(dir).unwrap();
     let f = |suffix: &str| std::io::BufWriter::new(std::fs::File::create(format!("{}/{}.{}", dir, sub, suffix)).unwrap());
-    Out { req: f("req.jsonl"), imp: f("impl.jsonl"), meta: f("meta.jsonl"), search: f("search.jsonl"), stats: BTreeMap::new(), n: 0, nsearch: 0, dir: dir.into(), sub: sub.into() }
+    Out { req: f("req.jsonl"), imp: f("impl.jsonl"), meta: f("meta.jsonl"), search: f("search.jsonl"), stats: BTreeMap::new(), n: 0, nsearch: 0, evals: 0, nontrivial: Default::default(), dir: dir.into(), sub: sub.into() }
   }
   /// one correspondence case
   pub fn case(&mut self, req: Value, imp: Value, meta: Value) {
@@ -41,6 +44,19 @@ impl Out {
     writeln!(self.search, "{}", json!({"property": property, "kind": kind, "key": key, "detail": detail})).unwrap();
     self.nsearch += 1;
   }
+  /// one evaluation of property oracles on the implementation (no model request); `key` identifies the input
+  pub fn eval(&mut self, key: &str, nontrivial: bool, sample: Value) {
+    use std::hash::{Hash, Hasher};
+    self.evals += 1;
+    if nontrivial {
+      let mut h = std::collections::hash_map::DefaultHasher::new();
+      key.hash(&mut h);
+      self.nontrivial.insert(h.finish());
+    }
+    if self.evals <= 3 {
+      writeln!(self.meta, "{}", json!({"oracle_sample": sample})).unwrap();
+    }
+  }
   pub fn count(&mut self, k: &str) {
     *self.stats.entry(k.to_string()).or_insert(0) += 1;
   }
@@ -52,7 +68,7 @@ impl Out {
     self.imp.flush().unwrap();
     self.meta.flush().unwrap();
     self.search.flush().unwrap();
-    let s = json!({"cases": self.n, "search_failures": self.nsearch, "hist": self.stats});
+    let s = json!({"cases": self.n, "search_failures": self.nsearch, "hist": self.stats, "oracle_evals": self.evals, "oracle_distinct_nontrivial": self.nontrivial.len()});
     std::fs::write(format!("{}/{}.stats.json", self.dir, self.sub), s.to_string()).unwrap();
   }
 }
@@ -100,6 +116,7 @@ fn main() {
     "sel" => d_sel::run(&args),
     "pipe" => d_pipe::run(&args),
     "entry" => d_entry::run(&args),
+    "scan" => d_scan::run(&args),
     x => {
       eprintln!("unknown sub {}", x);
       std::process::exit(2);
